@@ -99,9 +99,14 @@ class PathT:
     def __init__(self, parts, mods=(), src=None, has_src=False):
         self.parts, self.mods, self.src, self.has_src = list(parts), list(mods), src, has_src
 
+    def __repr__(self):
+        return self.descr()
+
     def build(self, parts_only=False):
         v = valida()
-        ps = [p.build() for p in self.parts]
+        # the SAME part term object at several positions is built once: one part object used at several positions of the path
+        built = {}
+        ps = [built[id(p)] if id(p) in built else built.setdefault(id(p), p.build()) for p in self.parts]
         if parts_only:
             return ps
         p = v.DataPath(*ps, source_data=self.src) if self.has_src else v.DataPath(*ps)
